@@ -150,6 +150,23 @@ func checkC17(c *Ctx) {
 					r.Bad("R17.3", name, "callback-ctx", c.Pos(ev.Pos), "callbacks must receive the caller's context", shortTrace(p))
 				}
 			}
+			// the list of callbacks that is run is the one read inside the critical section (a snapshot taken before the
+			// lock misses callbacks registered while the call was waiting for its turn)
+			for i, ev := range p.Events {
+				if (ev.Kind == pw.EvLoopBegin || ev.Kind == pw.EvLoopZero) && ev.Recv != nil && fromCallbacks(ev.Recv) {
+					underLock := false
+					for j := i - 1; j >= 0; j-- {
+						e2 := p.Events[j]
+						if e2.Kind == pw.EvFieldRead && e2.Field != nil && e2.Field.Name() == "Callbacks" {
+							underLock = held(j)
+							break
+						}
+					}
+					if !underLock {
+						r.Bad("R17.3", name, "callbacks-read-before-lock", c.Pos(ev.Pos), "the callbacks that are run were read before entering the critical section: an accepted call may miss callbacks registered while it waited", shortTrace(p))
+					}
+				}
+			}
 			// one iteration model: a path with an iteration must contain exactly one callback call in it
 			for _, g := range iterations(p) {
 				n := 0
